@@ -8,9 +8,10 @@ every scalar (0 included), every vector, every evaluation point and arbitrary (n
 leaf operators.
 -/
 import OdlModel.Lemmas.OpAlgebra
+import OdlModel.Lemmas.OpDispatch
 import Mathlib.Algebra.Field.Rat
 
-open OdlModel.OpAlgebra
+open OdlModel.OpAlgebra OdlModel.Gen.AlgebraDispatch
 
 /-- Work-horse (soundness together with the invariant that makes it inductive).
 If the Python expression `e` builds an operator object `i` (does not raise), then
@@ -486,6 +487,148 @@ theorem C04.linear_flag_complete {K : Type} [Field K] [DecidableEq K]
       | radd => simp [linOf] at hl
       | sub => simp [linOf] at hl
       | rsub => simp [linOf] at hl
+
+/-! ### Translator tie: the dispatch EXTRACTED from the source is the modelled dispatch -/
+
+/-- Induction behind `buildT_eq_build` (the invariant "built Functionals have field range"
+is passed in; it is the second component of `C04.build_type`). -/
+theorem C04.buildT_eq_build_aux {K : Type} [Field K] [DecidableEq K]
+    (env : Nat → Vec K → Vec K) (e : Expr K)
+    (hfr : ∀ (e' : Expr K) (i : Impl K), LeavesWf e' → build env e' = some i → FnRan i)
+    (hwf : LeavesWf e) :
+    buildT tables env e = build env e := by
+  have hNeg : (tables).operatorNeg = Deleg.negOneTimesSelf := rfl
+  have hRSub : (tables).operatorRSub = Deleg.negOneTimesSelfPlusOther := rfl
+  have hTd : (tables).operatorTruediv = Deleg.selfTimesRecipOther := rfl
+  have hRAdd : (tables).operatorRAdd = Deleg.selfPlusOther := rfl
+  have hPow : (tables).powIsCompLoop = true := rfl
+  induction e with
+  | leaf l => rfl
+  | neg a ih =>
+    simp only [buildT, build, ih hwf]
+    cases ha : build env a with
+    | none => rfl
+    | some a' =>
+      have h1 := hfr a a' hwf ha
+      simp only [Option.bind_some, Option.map_some, hNeg, Deleg.eval]
+      exact dRMul_scal env a' _ h1
+  | pow a n ih =>
+    simp only [buildT, build, ih hwf]
+    cases ha : build env a <;> simp [hPow]
+  | bin o a b iha ihb =>
+    simp only [buildT, build, iha hwf.1, ihb hwf.2]
+    cases ha : build env a with
+    | none => rfl
+    | some a' =>
+      cases hb : build env b with
+      | none => rfl
+      | some b' =>
+        have h1 := hfr a a' hwf.1 ha
+        have h2 := hfr b b' hwf.2 hb
+        cases o with
+        | add => exact pyAdd_op env a' b'
+        | sub =>
+          have : subOf tables a' = Deleg.selfPlusNegOneTimesOther := by
+            unfold subOf; split_ifs <;> rfl
+          simp only [this, Deleg.eval, negOneTimes, dRMul_scal env b' _ h2, Option.map_some,
+            Option.bind_some]
+          exact pyAdd_op env a' _
+        | mul => exact dMul_op env a' b'
+        | pprod => rfl
+        | quot => rfl
+  | sc o a s ih =>
+    simp only [buildT, build, ih hwf]
+    cases ha : build env a with
+    | none => rfl
+    | some a' =>
+      have h1 := hfr a a' hwf ha
+      have h3 := fnRan_opRMulScal a' (-1) h1
+      have hsub : subOf tables a' = Deleg.selfPlusNegOneTimesOther := by
+        unfold subOf; split_ifs <;> rfl
+      cases o with
+      | lmul => exact dRMul_scal env a' s h1
+      | rmul => exact dMul_scal env a' s h1
+      | div =>
+        simp only [hTd, Deleg.eval]
+        split_ifs
+        · rfl
+        · exact dMul_scal env a' _ h1
+      | add => simp only [pyAdd]; exact dAdd_scal env a' s h1
+      | radd =>
+        simp only [reflectedAdd]
+        split_ifs
+        · exact dAdd_scal env a' s h1
+        · simp only [hRAdd, Deleg.eval, pyAdd]; exact dAdd_scal env a' s h1
+      | sub =>
+        simp only [hsub, Deleg.eval, negOneTimes, Option.bind_some, pyAdd]
+        exact dAdd_scal env a' _ h1
+      | rsub =>
+        simp only [hRSub, Deleg.eval, dRMul_scal env a' _ h1, Option.bind_some, pyAdd]
+        exact dAdd_scal env _ s h3
+  | vc o a v ih =>
+    simp only [buildT, build, ih hwf]
+    cases ha : build env a with
+    | none => rfl
+    | some a' =>
+      have h1 := hfr a a' hwf ha
+      have h3 := fnRan_opRMulScal a' (-1) h1
+      have hsub : subOf tables a' = Deleg.selfPlusNegOneTimesOther := by
+        unfold subOf; split_ifs <;> rfl
+      have hp : tables.operatorPriorityHigher = true := rfl
+      cases o with
+      | lmul => simp only [hp, if_true]; exact dRMul_vec env a' v h1
+      | rmul => exact dMul_vec env a' v h1
+      | add => simp only [pyAdd]; exact dAdd_vec env a' v h1
+      | radd =>
+        simp only [hp, if_true, reflectedAdd]
+        split_ifs
+        · exact dAdd_vec env a' v h1
+        · simp only [hRAdd, Deleg.eval, pyAdd]; exact dAdd_vec env a' v h1
+      | sub =>
+        simp only [hsub, Deleg.eval, negOneTimes, Option.bind_some, pyAdd]
+        exact dAdd_vec env a' ⟨v.n, fun j => -1 * v.val j⟩ h1
+      | rsub =>
+        simp only [hp, if_true, hRSub, Deleg.eval, dRMul_scal env a' _ h1, Option.bind_some, pyAdd]
+        exact dAdd_vec env _ v h3
+
+/-- `buildT_eq_build`: the overload dispatch as EXTRACTED on this run from
+`odl/operator/operator.py` and `odl/solvers/functional/functional.py`
+(`Gen/AlgebraDispatch.lean`: ordered guard lists of `Operator.__add__/__mul__/__rmul__`,
+`OperatorRightScalarMult.__mul__`, `Functional.__add__/__mul__/__rmul__`, the one-line
+overloads `__radd__/__sub__/__rsub__/__neg__/__truediv__`, `Functional.__sub__`, the `__pow__`
+loop, the `__array_priority__` order), run by the interpreter `buildT`, builds exactly the
+object the hand-written `build` builds — for every expression.  Hence every theorem above is
+a theorem about the dispatch the source contains today; a changed guard, guard order,
+constructed class, argument order or delegation makes this theorem fail. -/
+theorem C04.buildT_eq_build {K : Type} [Field K] [DecidableEq K]
+    (env : Nat → Vec K → Vec K) (e : Expr K) (hwf : LeavesWf e) :
+    buildT tables env e = build env e :=
+  C04.buildT_eq_build_aux env e (fun e' i h hb => (C04.build_type env e' h).2 i hb) hwf
+
+/-- Soundness stated directly for the extracted dispatch. -/
+theorem C04.extracted_dispatch_sound {K : Type} [Field K] [DecidableEq K]
+    (env : Nat → Vec K → Vec K) (e : Expr K) (hwf : LeavesWf e) (henv : EnvOK env e)
+    (i : Impl K) (h : buildT tables env e = some i) (x : Vec K) :
+    run env i x = den env e x ∧ runIn env i x = den env e x := by
+  rw [C04.buildT_eq_build env e hwf] at h
+  exact ⟨C04.build_sound env e henv i h x, C04.build_sound_inplace env e henv i h x⟩
+
+/-- `flag_table_matches`: the `is_linear` rule of each of the 19 expression classes as
+extracted from their `__init__` (the last base initialiser in source order wins) is the
+rule `Impl.lin` uses — for every tree of expression objects. -/
+theorem C04.flag_table_matches {K : Type} [Field K] [DecidableEq K] (i : Impl K) :
+    i.linBy flagOf = i.lin :=
+  linBy_eq_lin i
+
+/-- The remaining extracted facts the interpreter relies on: `A ** n` is the loop of
+right-nested `OperatorComp`, operators out-rank space elements (`__array_priority__`),
+`Functional.__radd__` is `__add__`, and both scalar-merging shortcuts are
+`scalar = scalar * operator.scalar; operator = operator.operator`. -/
+theorem C04.extracted_facts :
+    tables.powIsCompLoop = true ∧ tables.operatorPriorityHigher = true ∧
+    tables.functionalRAddIsAdd = true ∧ tables.scalarMergeIsProduct = true ∧
+    tables.operatorMatmul = Deleg.selfMulOther :=
+  ⟨rfl, rfl, rfl, rfl, rfl⟩
 
 /-! ### Non-vacuity: concrete instances -/
 
